@@ -4,6 +4,10 @@
    library's own observer reported for a result must be the degree of that result. -/
 import Driver.Common
 import GivaroModel.Model.Poly
+import GivaroModel.Model.PolyInterp
+import GivaroModel.Model.PolyMore
+import GivaroModel.Model.PolyCRT
+import GivaroModel.Model.PolyPadicDirect
 import GivaroModel.Spec.PolySpec
 -- @driver-mode poly Driver.Poly.polyLine
 namespace Driver.Poly
@@ -125,11 +129,13 @@ def polyCase (thr : Nat) (key : String) (a : Array String) (r : Array String) : 
   | "vdiv" => do
     let v ← S 0; let A ← P 1; let q ← RP 0
     if (norm A).isEmpty then pure { pre := false, spec := true } else
-    pure { spec := chkQuo [v] A q.1 && degOk q }
+    let m := Givaro.Model.PolyMore.valDiv v A
+    pure { spec := chkQuo [v] A q.1 && degOk q, model := eqv m q.1, info := renderPoly (norm m) }
   | "vmod" => do
     let v ← S 0; let A ← P 1; let q ← RP 0
     if (norm A).isEmpty then pure { pre := false, spec := true } else
-    pure { spec := chkRem [v] A q.1 && degOk q }
+    let m := Givaro.Model.PolyMore.valMod v A
+    pure { spec := chkRem [v] A q.1 && degOk q, model := eqv m q.1, info := renderPoly (norm m) }
   -- fused forms
   | "axpy" => do let A ← P 0; let X ← P 1; let Y ← P 2
                  pure (exact1 (← RP 0) (sadd (smul A X) Y) (some (Givaro.Model.Poly.axpy thr A X Y)))
@@ -216,7 +222,7 @@ def polyCase (thr : Nat) (key : String) (a : Array String) (r : Array String) : 
            info := renderPoly (norm md.1) ++ " " ++ FieldIO.render md.2 }
   | "isdiv" => do
     let A ← P 0; let B ← P 1; let v ← r[0]? >>= parseHexInt
-    pure { spec := (v != 0) == divides B A }
+    pure { spec := (v != 0) == divides B A, model := (v != 0) == Givaro.Model.PolyMore.isDivisor thr A B }
   -- gcd family
   | "gcd" => do
     let A ← P 0; let B ← P 1; let d ← RP 0
@@ -289,40 +295,61 @@ def polyCase (thr : Nat) (key : String) (a : Array String) (r : Array String) : 
     pure { spec := specOk, model := modelOk }
   | "areequal" => do
     let A ← P 0; let B ← P 1; let e ← r[0]? >>= parseHexInt; let ne ← r[1]? >>= parseHexInt
-    pure { spec := (e != 0) == eqv A B && (ne != 0) == !(eqv A B), model := (e != 0) == Givaro.Model.Poly.areEqual A B }
+    pure { spec := (e != 0) == eqv A B && (ne != 0) == !(eqv A B),
+           model := (e != 0) == Givaro.Model.Poly.areEqual A B && (ne != 0) == Givaro.Model.PolyMore.areNEqual A B }
   | "getentry" => do
     let A ← P 0; let i ← N 1; let c ← r[0]? >>= FieldIO.parse
     if i < 0 then pure { pre := false, spec := true } else
     pure { spec := c = coeff A i.toNat, model := c = Givaro.Model.Poly.getEntry i.toNat A }
   -- constructors / assignments
-  | "init0" => do pure (exact1 (← RP 0) ([] : List K))
-  | "initv" | "assignv" => do let v ← S 0; pure (exact1 (← RP 0) [v])
-  | "initl3" => do let x ← S 0; let y ← S 1; let z ← S 2; pure (exact1 (← RP 0) [x, y, z])
-  | "initdeg" => do let d ← N 0; pure (exact1 (← RP 0) (zeros d.toNat ++ [(1 : K)]))
-  | "initdv" | "assigndv" => do let d ← N 0; let v ← S 1; pure (exact1 (← RP 0) (zeros d.toNat ++ [v]))
+  | "init0" => do pure (exact1 (← RP 0) ([] : List K) (some Givaro.Model.PolyMore.init0))
+  | "initv" => do let v ← S 0; pure (exact1 (← RP 0) [v] (some (Givaro.Model.PolyMore.initVal v)))
+  | "assignv" => do let v ← S 0; pure (exact1 (← RP 0) [v] (some (Givaro.Model.PolyMore.assignVal v)))
+  | "initl3" => do let x ← S 0; let y ← S 1; let z ← S 2
+                   pure (exact1 (← RP 0) [x, y, z] (some (Givaro.Model.PolyMore.initList [x, y, z])))
+  | "initdeg" => do let d ← N 0; pure (exact1 (← RP 0) (zeros d.toNat ++ [(1 : K)]) (some (Givaro.Model.PolyMore.initDeg d.toNat)))
+  | "initdv" | "assigndv" => do
+    let d ← N 0; let v ← S 1
+    pure (exact1 (← RP 0) (zeros d.toNat ++ [v]) (some (Givaro.Model.PolyMore.initDegVal d.toNat v)))
   | "assign" => do let A ← P 0; pure (exact1 (← RP 0) A (some (Givaro.Model.Poly.assign A)))
   | "toscalar" | "convert" => do
     let A ← P 0; let c ← r[0]? >>= FieldIO.parse
-    pure { spec := c = coeff A 0 }
+    pure { spec := c = coeff A 0, model := c = Givaro.Model.PolyMore.toScalar A }
   | "observe2" => do
     let A ← P 0
     let mo ← r[0]? >>= parseHexInt; let un ← r[1]? >>= parseHexInt; let vl ← r[2]? >>= parseHexInt; let dg ← r[3]? >>= parseHexInt
     let An := norm A
     let valSpec : Int := match An.findIdx? (fun c => !(decide (c = 0))) with | some i => (i : Int) | none => -1
-    pure { spec := (mo != 0) == decide (An = [-(1 : K)]) && (un != 0) == decide (sdeg A = 0) && vl == valSpec && dg == sdeg A }
+    pure { spec := (mo != 0) == decide (An = [-(1 : K)]) && (un != 0) == decide (sdeg A = 0) && vl == valSpec && dg == sdeg A,
+           model := (mo != 0) == Givaro.Model.PolyMore.isMOne A && (un != 0) == Givaro.Model.PolyMore.isUnit A &&
+                    vl == Givaro.Model.PolyMore.val A && dg == Givaro.Model.Poly.degree A }
   | "setentry" => do
     let A ← P 0; let c ← S 1; let i ← N 2
     if i < 0 then pure { pre := false, spec := true } else
     let L := max A.length (i.toNat + 1)
     let padded := (A ++ zeros L).take L
-    pure (exact1 (← RP 0) (padded.set i.toNat c))
+    pure (exact1 (← RP 0) (padded.set i.toNat c) (some (Givaro.Model.PolyMore.setEntry A c i.toNat)))
   | "modinv" | "modv" => do
     let _A ← P 0; let v ← S 1
-    if v = 0 then pure { pre := false, spec := true } else pure (exact1 (← RP 0) ([] : List K))
+    if v = 0 then pure { pre := false, spec := true } else
+    pure (exact1 (← RP 0) ([] : List K) (some (Givaro.Model.PolyMore.modVal _A v)))
   | "inv" | "invin" => do
     let A ← P 0
-    if sdeg A != 0 then pure { pre := false, spec := true } else pure (exact1 (← RP 0) [1 / coeff (norm A) 0])
-  | "shiftin" => do let A ← P 0; let sft ← N 1; pure (exact1 (← RP 0) (zeros sft.toNat ++ A))
+    if sdeg A != 0 then pure { pre := false, spec := true } else
+    pure (exact1 (← RP 0) [1 / coeff (norm A) 0] (some (Givaro.Model.PolyMore.inv thr A)))
+  | "shiftin" => do
+    let A ← P 0; let sft ← N 1
+    if sft < 0 then pure { pre := false, spec := true } else
+    pure (exact1 (← RP 0) (zeros sft.toNat ++ A) (some (Givaro.Model.PolyMore.shiftin A sft.toNat)))
+  | "random" => do
+    -- random / nonzerorandom, overload `ov` in {0, s, d, b}: the draws are not determined (C17); the shape is: exactly
+    -- target+1 coefficients, leading one non-zero, degree = target (`random_shape`, `randomTarget`)
+    let ov ← a[0]?; let _nz ← N 1; let arg ← N 2; let q ← RP 0
+    if arg > 4096 || arg < -4096 then pure { pre := false, spec := true } else
+    let tgt := Givaro.Model.PolyMore.randomTarget ov arg
+    let want : Int := if tgt < 0 then -1 else tgt
+    pure { spec := q.1 = norm q.1 && sdeg q.1 == want && degOk q,
+           model := (q.1.length : Int) == want + 1, info := toString want }
   | "modpowxin" => do
     let A ← P 0; let l ← N 1
     if l < 0 then pure { pre := false, spec := true } else
@@ -363,14 +390,23 @@ def polyCase (thr : Nat) (key : String) (a : Array String) (r : Array String) : 
       else Givaro.Model.Poly.pad nn (Givaro.Model.Poly.karamidStep (Givaro.Model.Poly.midR thr fuel) nn A B)
     pure { spec := raw = want, model := raw = m, info := renderPoly m }
   -- interpolation / CRT through their defining identities
-  | "interp" | "crt" => do
+  | "interp" => do
+    -- Interpolation<Domain> (givinterp.h): defining identity (values at the points, degree bound: `interp_unique`) and the
+    -- model of the Newton / divided-difference object (`interp_exact`)
+    let xs ← P 0; let fs ← P 1; let q ← RP 0
+    if xs.length != fs.length || xs.eraseDups.length != xs.length then pure { pre := false, spec := true } else
+    let ok := (xs.zip fs).all (fun (x, f) => seval q.1 x = f)
+    let m := Givaro.Model.PolyInterp.interpolator (xs.zip fs)
+    pure { spec := ok && decide (sdeg q.1 < xs.length) && degOk q, model := eqv m q.1, info := renderPoly (norm m) }
+  | "crt" => do
     let xs ← P 0; let fs ← P 1; let q ← RP 0
     if xs.length != fs.length || xs.isEmpty || xs.eraseDups.length != xs.length then pure { pre := false, spec := true } else
     let ok := (xs.zip fs).all (fun (x, f) => seval q.1 x = f)
-    pure { spec := ok && decide (sdeg q.1 < xs.length) && degOk q }
+    let m := Givaro.Model.PolyCRT.rnsToRing thr xs fs
+    pure { spec := ok && decide (sdeg q.1 < xs.length) && degOk q, model := eqv m q.1, info := renderPoly (norm m) }
   | "rtr" => do
     let xs ← P 0; let A ← P 1; let rs ← r[0]? >>= parsePoly
-    pure { spec := rs = xs.map (fun x => seval A x) }
+    pure { spec := rs = xs.map (fun x => seval A x), model := rs = Givaro.Model.PolyCRT.ringToRns xs A }
   | "padic_eval" => do
     let A ← P 0; let e ← r[0]? >>= parseHexInt
     let p : Nat := FieldIO.card K
@@ -389,6 +425,21 @@ def polyCase (thr : Nat) (key : String) (a : Array String) (r : Array String) : 
     let p : Nat := FieldIO.card K
     let digs : List Nat := A.map (fun c => (parseHexNat (FieldIO.render c)).getD 0)
     pure { spec := e == (Givaro.Model.Padic.eval p digs : Int) }
+  | "padic_evaldirect" => do
+    let A ← P 0; let e ← r[0]? >>= parseHexInt
+    let p : Nat := FieldIO.card K
+    let digs : List Nat := A.map (fun c => (parseHexNat (FieldIO.render c)).getD 0)
+    if Givaro.Model.Padic.eval p digs ≥ 2 ^ 64 then pure { pre := false, spec := true } else
+    pure { spec := e == (Givaro.Model.Padic.eval p digs : Int), model := e == (Givaro.Model.Padic.evalDirect p digs : Int) }
+  | "padic_radixdirect" => do
+    -- raw storage is the contract here: exactly n digits, not normalised
+    let e ← a[0]? >>= parseHexNat; let n ← N 1; let raw ← (r[0]? >>= parsePoly : Option (List K))
+    let p : Nat := FieldIO.card K
+    if n < 0 || e ≥ 2 ^ 64 then pure { pre := false, spec := true } else
+    let digs : List Nat := raw.map (fun c => (parseHexNat (FieldIO.render c)).getD 0)
+    let m := Givaro.Model.Padic.radixDirect p n.toNat e
+    pure { spec := digs.length == n.toNat && digs.all (fun d => d < p) && Givaro.Model.Padic.eval p digs == e % p ^ n.toNat,
+           model := digs == m, info := toString m }
   | "padic_radixn" => do
     let e ← a[0]? >>= parseHexNat; let n ← N 1; let q ← RP 0
     let p : Nat := FieldIO.card K
